@@ -1088,8 +1088,61 @@ def r9_grammar_names_that_are_not_times(repo=None):
                             "%s raises and aborts the listing of the whole tree (drf ls / cp / mv, mirror and ringbuffer start-up)" % (
                                 wanted[0], "`2017-02-30T00-00-00/` or month 13" if wanted[0] == "ValueError" else "`rf@99999999999999999.000.h5`"),
                             line=c.lineno)
-    if n < 2:
+    if n < 1:
         raise AnalysisError("list_drf: expected the sub-directory date and the file time to be built from regex groups (2 sites), found %d" % n)
+    if n < 2:
+        r.note("only %d datetime / timedelta construction from regex groups found (a time kept as plain integer arithmetic cannot overflow)" % n)
+    r.guard(1)
+    return r
+
+
+def r10_window_bounds_exact(repo=None):
+    """'A time window selects exactly the files whose name timestamp lies in [start, end]': the bounds the caller gives are
+    compared as they are.  In the public generator the window parameters may only be made timezone-aware and turned into the
+    difference to the epoch; any rounding on the way (floor division to a unit, int(), round(), total_seconds() arithmetic) moves a
+    bound: a start with a sub-millisecond part floored to the millisecond lists the file named by that millisecond although it
+    lies before the start."""
+    r = Rule("C14.R10", "the window bounds are compared exactly (no rounding of start / end before the comparison)")
+    m = pyfront.mod("list_drf", repo)
+    q = "ilsdrf"
+    fn = m.flat(q, keep=(kernel_name(repo),), depth=3).fn()
+    n_sites = 0
+    ROUND_CALLS = ("int", "round", "floor", "ceil", "trunc", "total_seconds", "timestamp", "time_to_sample_ceil")
+    for bound in ("starttime", "endtime"):
+        if bound not in [a.arg for a in fn.args.args]:
+            raise AnalysisError("%s: parameter `%s` not found" % (q, bound))
+        tainted = {bound}
+        assigns = sorted((a for a in ast.walk(fn) if isinstance(a, ast.Assign)), key=lambda a: (a.lineno, a.col_offset))
+        seen = set()
+        for _round in range(3):
+            for a in assigns:
+                v = a.value
+                def mentions(x):
+                    return any(isinstance(y, ast.Name) and y.id in tainted for y in ast.walk(x))
+                if not mentions(v):
+                    continue
+                tg = [t.id for t in a.targets if isinstance(t, ast.Name)]
+                if not tg:
+                    continue
+                if id(a) in seen:
+                    continue
+                seen.add(id(a))
+                n_sites += 1
+                site = "%s:%s %s `%s`" % (m.rel, a.lineno, q, norm(ast.unparse(a))[:70])
+                rounding = [x for x in ast.walk(v) if mentions(x) and (
+                    (isinstance(x, ast.BinOp) and isinstance(x.op, (ast.FloorDiv, ast.Div, ast.Mod)))
+                    or (isinstance(x, ast.Call) and (pyfront.call_name(x) or "").split(".")[-1] in ROUND_CALLS))]
+                if rounding:
+                    r.violation(m.rel, q, norm(ast.unparse(a))[:80], "the %s of the window is rounded before it is compared with the name "
+                                "timestamps (`%s`): a bound with a part below the rounding unit moves - a start of T + 500 us floored to "
+                                "milliseconds lists the file named T, which lies before the start (and the metadata forward-fill then "
+                                "adds a second, older file)" % ("start" if bound == "starttime" else "end", norm(ast.unparse(rounding[0]))[:40]),
+                                line=a.lineno)
+                else:
+                    r.ok(site, "no rounding operation on the %s bound" % ("start" if bound == "starttime" else "end"))
+                tainted.update(tg)
+    if n_sites < 2:
+        raise AnalysisError("%s: conversions of the window bounds not found (4 on the reference tree, found %d)" % (q, n_sites))
     r.guard(2)
     return r
 
@@ -1098,7 +1151,8 @@ def rules(repo=None):
     return [lambda: r1_grammar(repo), lambda: r2_kind_tables(repo), lambda: r3_sorted_before_sliced(repo),
             lambda: r4_robust_listing(repo), lambda: r5_lookback_complete(repo),
             lambda: r6_reverse_changes_only_the_order(repo), lambda: r7_window_end_inclusive(repo),
-            lambda: r8_forward_fill_file_always_taken(repo), lambda: r9_grammar_names_that_are_not_times(repo)]
+            lambda: r8_forward_fill_file_always_taken(repo), lambda: r9_grammar_names_that_are_not_times(repo),
+            lambda: r10_window_bounds_exact(repo)]
 
 
 EXPLANATION = (
@@ -1113,7 +1167,7 @@ EXPLANATION = (
     "reverse=False/True over a symbolic ascending list of three sub-directories: the loop visits them ascending resp. exactly "
     "reversed, every selection expression in the loop (slice arguments, conditions) has the same partially evaluated form for each "
     "sub-directory in both modes (position counters and the flag folded), and the yielding loop runs over the sliced list resp. its "
-    "exact reverse - reversing changes the order, not the set. R7: the end of the window steps over *every* entry carrying the end time (a loop after bisecting with the 1-tuple probe). R8: under forward fill the start index always steps back one entry and the look-back is taken for a first file at or after the start (truth tables over the orderings). R9: datetime / timedelta built from regex groups sit in try/except ValueError / OverflowError. Does NOT decide the remaining window arithmetic (bisect positions).")
+    "exact reverse - reversing changes the order, not the set. R7: the end of the window steps over *every* entry carrying the end time (a loop after bisecting with the 1-tuple probe). R8: under forward fill the start index always steps back one entry and the look-back is taken for a first file at or after the start (truth tables over the orderings). R9: datetime / timedelta built from regex groups sit in try/except ValueError / OverflowError. R10: in ilsdrf the window bounds are only made timezone-aware and turned into the difference to the epoch - no rounding before the comparison. Does NOT decide the remaining window arithmetic (bisect positions).")
 TECHNIQUE = ('Python ast; regular-language algebra on folded regex constants; abstract execution of flag chains; sortedness typestate over the CFG; guarded-subscript dataflow; order/element interpretation of sequence expressions + partial evaluation of conditions for both values of a flag')
 ASSUMPTIONS = ["os.walk swallows listing errors by default", "Python regex semantics as modelled by vp.rx"]
 FILES = [LD]
